@@ -32,7 +32,8 @@ def run(ev, vd):
     jobs = [("ctl", cbin("doall"), t) for t in conc.TOPOS_CTL] + [("jitter", cbin("doall"), None), ("jitter", cbin("doall"), "2x2"),
             ("free", fbin("doall"), None), ("free", fbin("doall"), "2x4"), ("free", fbin("doall"), "3+1"),
             # sequences of regions over the whole pool (1..16 threads) confined to one resp. two CPUs
-            ("pool16", ["taskset", "-c", "0", fbin("doall")], None), ("pool16", ["taskset", "-c", "0,1", fbin("doall")], None)]
+            # (synthetic 4x4 topology: the pool keeps 16 threads although the process is confined)
+            ("pool16", ["taskset", "-c", "0", fbin("doall")], "4x4"), ("pool16", ["taskset", "-c", "0,1", fbin("doall")], "4x4")]
 
     def job(j):
         k, (mode, binp, topo) = j
